@@ -18,7 +18,7 @@ def notation(fields):
     for f in fields:
         if f[0] == "leaf":
             out.append(REP_PREFIX[f[1]] + "x")
-        elif f[0] == "group":
+        elif f[0] in ("group", "groupref"):
             out.append(REP_PREFIX[f[1]] + "{" + notation(f[2]) + "}")
         elif f[0] == "embedded":
             out.append("<" + notation(f[1]) + ">")
@@ -58,7 +58,7 @@ def annotate(fields, prims=None, prim_offset=0, tag_all=False):
                 tag = name.lower() if (ctr["f"] % 2 == 1 or tag_all) else ""
                 out.append(("group", f[1], walk(f[2]), name, tag))
             elif f[0] == "embedded":
-                out.append(("embedded", walk(f[1])))
+                out.append(("embedded", walk(f[1])) + tuple(f[2:]))
             else:
                 out.append(f)
         return out
@@ -74,7 +74,7 @@ def typed_notation(fields, prim_offset=0, prims=None):
         for f in fs:
             if f[0] == "leaf":
                 out.append(REP_PREFIX[f[1]] + KIND_ABBR[f[4]])
-            elif f[0] == "group":
+            elif f[0] in ("group", "groupref"):
                 out.append(REP_PREFIX[f[1]] + "{" + walk(f[2]) + "}")
             elif f[0] == "embedded":
                 w = walk(f[1])
@@ -92,7 +92,7 @@ def column_paths(fields, prim_offset=0, prims=None, tag_all=False):
         for f in fs:
             if f[0] == "leaf":
                 out.append(".".join(path + [f[3] or f[2]]))
-            elif f[0] == "group":
+            elif f[0] in ("group", "groupref"):
                 walk(f[2], path + [f[4] or f[3]])
             elif f[0] == "embedded":
                 walk(f[1], path)
@@ -108,6 +108,7 @@ class Emitter:
         self.types = []
         self.ntype = 0
         self.nx = 0
+        self.declared = set()
 
     def struct(self, name, fields):
         lines = []
@@ -122,13 +123,26 @@ class Emitter:
                 lines.append("\t%s %s%s%s" % (f[3], REP_PREFIX[f[1]], tn, tag))
             elif f[0] == "embedded":
                 self.ntype += 1
-                tn = "E%d" % self.ntype
-                self.struct(tn, f[1])
+                tn = f[2] if len(f) > 2 else "E%d" % self.ntype
+                if tn not in self.declared:
+                    self.declared.add(tn)
+                    self.struct(tn, f[1])
                 lines.append("\t%s" % tn)
+            elif f[0] == "groupref":
+                # ("groupref", rep, fields, name, tag, typename): a group whose struct type is declared elsewhere (type reuse)
+                tn = f[5]
+                if tn not in self.declared:
+                    self.declared.add(tn)
+                    self.struct(tn, f[2])
+                tag = ' `parquet:"%s"`' % f[4] if f[4] else ""
+                lines.append("\t%s %s%s%s" % (f[3], REP_PREFIX[f[1]], tn, tag))
             elif f[0] == "excluded":
                 how, gt = f[1], f[2]
                 self.nx += 1
-                if how == "dash":
+                if how == "embedded-unexported":
+                    # an embedded struct whose type name is unexported is an unexported field
+                    lines.append("\t%s" % gt)
+                elif how == "dash":
                     lines.append('\tX%d %s `parquet:"-"`' % (self.nx, gt))
                 elif how == "underscore":
                     lines.append("\t_x%d %s" % (self.nx, gt))
